@@ -488,6 +488,8 @@ impl Default for AtomicExponentialAggregationStrategy {
 
 impl SharedAggregationStrategy for AtomicExponentialAggregationStrategy {
     fn record_many(&self, value: f64, count: u64) {
+        #[cfg(metrique_verif)]
+        detsim::yield_point();
         let value = scale_up(value);
         self.inner
             .add(value.min(u64::MAX as f64) as u64, count)
@@ -495,6 +497,8 @@ impl SharedAggregationStrategy for AtomicExponentialAggregationStrategy {
     }
 
     fn drain(&self) -> Vec<Observation> {
+        #[cfg(metrique_verif)]
+        detsim::yield_point();
         self.inner
             .drain()
             .iter()
